@@ -66,12 +66,27 @@ struct SegView
     MatrixXd coeffs;
 };
 
+// Calling-idiom routes: chosen per case by the monitors' context (Ctx::beginCase) and applied inside the adapters, so
+// that every property's workload also varies HOW the same request is made, not only its values.
+struct Routes
+{
+    // how a spline's exposed trajectory is reached: 0 getTrajectory()  1 getPPoly()  2 getTrajectoryCopy()
+    // 3 getPPolyCopy() (2,3: always the first accessor used after an update)  4 a reference taken once at construction
+    // and held across every later update
+    int access = 0;
+    // constructor / update arguments: 0 durations lvalue, matrix and boundary temporaries  1 all temporaries  2 all named lvalues
+    int args = 0;
+};
+extern Routes g_routes;
+
 struct IPPoly
 {
     virtual ~IPPoly() {}
     virtual int dim() const = 0;
     virtual int fixedOrder() const = 0; // -1 dynamic
     virtual void update(const std::vector<double> &bp, const MatrixXd &c, int nc) = 0;
+    // update() fed with the object's own getters: which 0 = (getBreakpoints(), c, nc), 1 = (bp, getCoefficients(), nc), 2 = both own
+    virtual void updateAliased(int which, const std::vector<double> &bp, const MatrixXd &c, int nc) = 0;
     virtual bool isInitialized() const = 0;
     virtual int numSegments() const = 0;
     virtual int numCoeffs() const = 0;
@@ -119,6 +134,11 @@ struct ISpline
     virtual void updatePts(const std::vector<double> &tp, const MatrixXd &P, const BC &bc) = 0;
     virtual void updateDurDefaultBC(const std::vector<double> &T, const MatrixXd &P, double t0) = 0;
     virtual void updatePtsDefaultBC(const std::vector<double> &tp, const MatrixXd &P) = 0;
+    // update(own getters...): which 0 = (getTimeSegments(), getSpacePoints(), t0, getBoundaryConditions()), 1 = (getCumulativeTimes(), getSpacePoints(), getBoundaryConditions())
+    virtual void updateFromOwnGetters(int which, double t0) = 0;
+    // const TrajectoryType &c = get{Trajectory,PPoly}Copy(); update(...); read c
+    virtual void copyRefThenUpdate(bool ppolyName, const std::vector<double> &T, const MatrixXd &P, double t0, const BC &bc, MatrixXd &coeffsOut, std::vector<double> &bpOut) = 0;
+    virtual double trajLengthDefault() const = 0; // exposed trajectory's getTrajectoryLength() with every argument defaulted
     virtual bool isInitialized() const = 0;
     virtual MatrixXd coeffs() const = 0;
     virtual std::vector<double> breakpoints() const = 0;
